@@ -19,6 +19,13 @@ func sizes(run *report.Run, quickCfg, thoroughCfg int) int {
 }
 
 func init() {
+	// the special token forms at high density (custom verbs, regex variables in every position, match-all
+	// expressions), requests mutated twice as often: what a token form admits and what it does not
+	specials := func(router string) routing.Opts {
+		o := routing.FullOpts(router)
+		o.Specials, o.Contest, o.Faults = true, false, false
+		return o
+	}
 	checks["C01"] = func(run *report.Run) error {
 		run.Rule = "route tables drawn from the template grammar (literals, {v}, {v:re}, {v}suffix, tail wildcard, :verb; Consumes/Produces/If/AllowedMethodsWithoutContentType), requests derived from a route's template then mutated (DESIGN §5); both routers; a case is non-trivial when some WebService root matched the URL; distinct = distinct (table, request) lines"
 		run.Trusted = []string{"Go regexp modelled by a derivative matcher (CurlyRouter) and by the closed form of DESIGN 4.2 (RouterJSR311)", "sort.Sort is insertion sort for n ≤ 12"}
@@ -31,6 +38,8 @@ func init() {
 		if err := routing.CheckStreams(run, p, []routing.StreamSpec{
 			{Name: "curly", Opts: routing.FullOpts("curly"), NCfg: n, PerCfg: 20},
 			{Name: "jsr", Opts: routing.FullOpts("jsr"), NCfg: n, PerCfg: 20},
+			{Name: "curly-specials", Opts: specials("curly"), NCfg: n / 3, PerCfg: 20},
+			{Name: "jsr-specials", Opts: specials("jsr"), NCfg: n / 3, PerCfg: 20},
 		}); err != nil {
 			return err
 		}
